@@ -145,6 +145,27 @@ Convert(d, s, ty2) ==
         /\ model' = [model EXCEPT ![d] = model[s]]
   /\ UNCHANGED <<err, stream>>
 
+\* field<T2>(field<T1> &&): the converting constructors take their argument by const reference, so a moving conversion
+\* copies; what is left in the source is unspecified (it must stay destructible and assignable)
+ConvertMove(d, s, ty2) ==
+  /\ slot[d].st = "dead" /\ Live(s) /\ d # s /\ ty2 # slot[s].ty /\ Applicable(ty2, slot[s].ext) /\ Tick
+  /\ LET e == slot[s].ext
+         b == nblk + 1
+         n == StorageSize(ty2, e)
+         src == heap[slot[s].blk].cells
+         Step(cells, c) == [cells EXCEPT ![IdxOf(ty2, e, c)] = src[IdxOf(slot[s].ty, e, c)]]
+     IN /\ nblk' = b
+        /\ heap' = [Alloc(heap, b, n) EXCEPT ![b].cells = FoldLeft(Step, ZeroCells(n), Visits(e))]
+        /\ slot' = [slot EXCEPT ![d] = [st |-> "live", ty |-> ty2, ext |-> e, blk |-> b, size |-> n], ![s].st = "unspec"]
+        /\ model' = [model EXCEPT ![d] = model[s], ![s] = <<>>]
+  /\ UNCHANGED <<err, stream>>
+
+\* field<T>(): a default-constructed field has no specified contents; it can be assigned to and destroyed
+DefaultConstruct(s, ty, n) ==
+  /\ slot[s].st = "dead" /\ (ty # "hilbert" \/ n = 2) /\ Tick
+  /\ slot' = [slot EXCEPT ![s] = [st |-> "unspec", ty |-> ty, ext |-> [k \in 1..n |-> 0], blk |-> NullBlk, size |-> 0]]
+  /\ UNCHANGED <<heap, model, nblk, err, stream>>
+
 \* dump: the configuration and every cell of the storage block, in storage order
 Dump(s) ==
   /\ Live(s) /\ Tick
@@ -169,8 +190,9 @@ Destroy(s) ==
   /\ model' = [model EXCEPT ![s] = <<>>]
   /\ UNCHANGED <<nblk, stream>>
 
-AllOps == {"Construct", "Write", "CopyCtor", "MoveCtor", "CopyAssign", "MoveAssign", "Convert", "Dump", "Load", "Destroy"}
-ConvOps == {"Construct", "Write", "Convert"}
+AllOps == {"Construct", "Write", "CopyCtor", "MoveCtor", "CopyAssign", "MoveAssign", "Convert", "ConvertMove", "DefaultConstruct", "Dump", "Load", "Destroy"}
+BasicOps == AllOps \ {"ConvertMove", "DefaultConstruct"}
+ConvOps == {"Construct", "Write", "Convert", "ConvertMove"}
 On(op) == op \in Ops
 
 Next ==
@@ -186,6 +208,8 @@ Next ==
   \/ (On("Load") /\ \E s \in Slots : Load(s))
   \/ (On("Destroy") /\ \E s \in Slots : Destroy(s))
   \/ (On("Convert") /\ \E d \in Slots, s \in Slots, ty \in Types : Convert(d, s, ty))
+  \/ (On("ConvertMove") /\ \E d \in Slots, s \in Slots, ty \in Types : ConvertMove(d, s, ty))
+  \/ (On("DefaultConstruct") /\ \E s \in ConstructSlots, ty \in Types : \E e \in ExtChoices : DefaultConstruct(s, ty, Len(e)))
 
 Spec == Init /\ [][Next]_vars
 
@@ -229,5 +253,5 @@ Ext2b == {<<2, 2>>, <<3, 2>>, <<1, 3>>}
 Ext12x == {<<2>>, <<2, 1>>}
 ExtMix == {<<1>>, <<3>>, <<2, 2>>, <<3, 2>>, <<1, 3>>, <<2, 5>>}
 ExtConv == {<<1>>, <<2>>, <<3>>, <<5>>, <<1, 1>>, <<2, 2>>, <<3, 2>>, <<2, 3>>, <<1, 4>>, <<3, 3>>, <<2, 2, 2>>, <<3, 1, 2>>, <<2, 1, 2, 3>>}
-ExtConvQ == {<<3>>, <<3, 2>>, <<2, 1, 2>>}
+ExtConvQ == {<<3, 2>>, <<2, 1, 2>>}
 =============================================================================
